@@ -1,5 +1,6 @@
 import PsaDhcp.Model.Resources
 import PsaDhcp.Proofs.OsEdge
+import PsaDhcp.Generated.Facts
 /-
 C19 — No sockets or goroutines leak, and shutdown is prompt (the logic of the three socket
 disciplines; which function follows which discipline is pinned in `Expect.lean`, and the real
@@ -33,5 +34,50 @@ theorem closer_shutdown_prompt (os : List Outcome) (o : Outcome) (ho : o = .ioOk
 closer's single Close. -/
 theorem returned_is_final (d : Discipline) (s : RState) (o : Outcome) (h : s.running = false) :
     (rstep d s o).running = false ∧ (rstep d s o).opened = s.opened := Proofs.OsEdge.returned_is_final d s o h
+
+/-- A socket constructor whose every error return closes the descriptor first: for every placement of failures (socket(2)
+itself, any set-up step), an error return leaves no descriptor behind and a success hands exactly one open descriptor to
+the caller. -/
+theorem ctor_no_leak (closes : List Bool) (h : closes.all id = true) (sockFails : Bool) (fails : List Bool) :
+    let r := ctorRun closes sockFails fails
+    (r.handedOut = false → r.opened = r.closed) ∧ (r.handedOut = true → r.opened = r.closed + 1) := by
+  unfold ctorRun
+  split
+  · simp
+  · induction closes generalizing fails with
+    | nil => simp [ctorSteps]
+    | cons c cs ih =>
+      simp only [List.all_cons, Bool.and_eq_true, id] at h
+      unfold ctorSteps
+      split
+      · simp [h.1]
+      · exact ih h.2 fails.tail
+
+/-- …and only such a constructor: one error return that does not close leaks for some failure placement. -/
+theorem ctor_leak_of_unclosed (closes : List Bool) (h : closes.all id = false) :
+    ∃ fails, (ctorRun closes false fails).handedOut = false ∧ (ctorRun closes false fails).opened ≠ (ctorRun closes false fails).closed := by
+  induction closes with
+  | nil => simp at h
+  | cons c cs ih =>
+    cases c with
+    | false => exact ⟨[true], by simp [ctorRun, ctorSteps]⟩
+    | true =>
+      simp only [List.all_cons, id, Bool.true_and] at h
+      obtain ⟨fs, h1, h2⟩ := ih h
+      refine ⟨false :: fs, ?_⟩
+      simpa [ctorRun, ctorSteps] using ⟨h1, h2⟩
+
+/-- The two constructors of lib/rsocks as they are in the source now (which error returns close the descriptor is
+extracted on every run): no failure placement leaks a descriptor. -/
+theorem rsocks_ctors_no_leak (sockFails : Bool) (fails : List Bool) :
+    (let r := ctorRun Facts.ctorSendCloses sockFails fails
+     (r.handedOut = false → r.opened = r.closed) ∧ (r.handedOut = true → r.opened = r.closed + 1)) ∧
+    (let r := ctorRun Facts.ctorRecvCloses sockFails fails
+     (r.handedOut = false → r.opened = r.closed) ∧ (r.handedOut = true → r.opened = r.closed + 1)) :=
+  ⟨ctor_no_leak _ (by decide) sockFails fails, ctor_no_leak _ (by decide) sockFails fails⟩
+
+/-- Non-vacuity: a bind failure in `getRecvSock` (two set-up steps) opens one descriptor and closes it. -/
+example : ctorRun [true, true] false [true] = ⟨1, 1, false⟩ ∧ ctorRun [true, true] false [false, true] = ⟨1, 1, false⟩ ∧
+    ctorRun [true, true] false [] = ⟨1, 0, true⟩ ∧ ctorRun [true, false] false [false, true] = ⟨1, 0, false⟩ := by decide
 
 end PsaDhcp.Props.C19
